@@ -208,11 +208,16 @@ def stripentities(text, keepxmlentities=False):
     def _replace_entity(match):
         if match.group(1): # numeric entity
             ref = match.group(1)
-            if ref[0] in 'xX':
-                ref = int(ref[1:], 16)
-            else:
-                ref = int(ref, 10)
-            return six.unichr(ref)
+            try:
+                if ref[0] in 'xX':
+                    ref = int(ref[1:], 16)
+                else:
+                    ref = int(ref, 10)
+                if 0xD800 <= ref <= 0xDFFF:
+                    return u'\ufffd' # surrogate: not a character
+                return six.unichr(ref)
+            except (ValueError, OverflowError):
+                return u'\ufffd' # beyond U+10FFFF (or too long to convert)
         else: # character entity
             ref = match.group(2)
             if keepxmlentities and ref in ('amp', 'apos', 'gt', 'lt', 'quot'):
